@@ -139,6 +139,8 @@ func checkC19(c *Ctx) {
 		}}}})
 	c.evalAcceptRule(p, "C19.prep", "PrepInit: aggregator id above the number of shares rejected", pi, map[string]lat{"aggID": latInt(3)},
 		[]ValAssume{{Name: "v.shares", Match: fieldRead("shares"), Val: latInt(2)}}, false)
+	c.evalAcceptRule(p, "C19.prep", "PrepInit: aggregator id equal to the number of shares rejected (ids are 0..shares-1)", pi, map[string]lat{"aggID": latInt(2)},
+		[]ValAssume{{Name: "v.shares", Match: fieldRead("shares"), Val: latInt(2)}}, false)
 	c.callArgRule(p, "C19.bind", "joint randomness part binds blind, aggregator id, nonce and the encoded measurement share", pi, xof+"jointRandPart", "",
 		map[int]string{2: `.*\.blind`, 3: `param#3`, 4: `param#2`, 5: `call:.*MarshalBinary.*#0`})
 	jrp := p.Func(pr, "xofTS", "jointRandPart")
@@ -153,6 +155,10 @@ func checkC19(c *Ctx) {
 			return strings.HasSuffix(callee, ").Decide")
 		}}}})
 	c.guardEachSite(p, "C19.prep", "joint randomness seed derivation must succeed", ps, 1, latNonNil, xof+"jointRandSeed")
+	c.evalAcceptRule(p, "C19.prep", "PrepSharesToPrep: an empty list of preparation shares is rejected", ps, map[string]lat{"prepShares": latSliceLen(0)},
+		[]ValAssume{{Name: "v.shares", Match: fieldRead("shares"), Val: latInt(2)}}, false)
+	c.evalAcceptRule(p, "C19.prep", "PrepSharesToPrep: fewer preparation shares than aggregators are rejected", ps, map[string]lat{"prepShares": latSliceLen(1)},
+		[]ValAssume{{Name: "v.shares", Match: fieldRead("shares"), Val: latInt(2)}}, false)
 
 	pn := p.Func(pr, "Prio3", "PrepNext")
 	jr, cs := fieldRead("joinRand"), fieldRead("correctedJointRandSeed")
